@@ -694,7 +694,19 @@ def judge(ctx, cases, observed, verbose=False):
                     prop.append('csv: ' + '; '.join(parsed['problems'][:3]))
                 known = []
                 if [parsed['comments'], parsed['cols'], parsed['rows']] != m_csv[1]:
-                    corr.append('Output.blob_to_csv: parsed CSV differs from the model')
+                    hm_ = case['tree'].get('hierarchy_mapper', {})
+                    f15_names = any(word in hm_.get(level, level) for level in hierarchy
+                                    for word in ('name', 'label', 'alias', 'assignment'))
+                    if mal and f15_names:
+                        # a MALFORMED blob (runner-up keys on inferred levels, ...) whose level names also trigger
+                        # finding F15 (columns chosen by substring of the level name): the extra columns of the
+                        # malformation are caught by the substring rule in ways the model of the well-formed
+                        # writer does not follow; the disagreement belongs to F15, not to a new defect
+                        ctx.violation('blob_to_csv on a malformed blob whose level names contain label/name/alias/assignment',
+                                      {'kind': 'blob', 'class': F12, 'problems': ['csv differs from the model (malformed blob x F15 level names)'],
+                                       'case': {kk: vv for kk, vv in case.items() if not kk.startswith('_')}})
+                    else:
+                        corr.append('Output.blob_to_csv: parsed CSV differs from the model')
                 complete = all(level in c for c in case['results'] for level in hierarchy)
                 if complete and case['results']:
                     case['_csv_text'] = obs['csv_text']
